@@ -4,6 +4,7 @@ import Mappy.Model.CIDict
 import Mappy.Model.DictUtils
 import Mappy.Model.Printer
 import Mappy.Model.Includes
+import Mappy.Model.Expr
 import Mappy.Gen.Props
 open Lean Mappy Mappy.Wire
 
@@ -118,6 +119,33 @@ def includesOp (req : Json) : Except String Json := do
   let resolve : Str → Str := fun n => (lookupS n res).getD (s2l "<unresolved>" ++ n)
   pure (resS (Includes.loadIncludes fs resolve (← getNat req "nested") (← getStr req "text")))
 
+/-! ### expressions -/
+partial def decodeE (j : Json) : Except String Expr.E := do
+  let k ← getStr j "k"
+  let sub (f : String) : Except String Expr.E := do
+    match j.getObjVal? f with
+    | .ok v => decodeE v
+    | .error _ => throw s!"missing {f}"
+  match l2s k with
+  | "atom" => pure (.atom (← getStr j "s"))
+  | "call" => do
+    let args ← (← getArr j "args").mapM fun a => match a with
+      | .str s => pure (s2l s)
+      | _ => throw "bad arg"
+    pure (.call (← getStr j "n") args)
+  | "paren" => pure (.paren (← sub "e"))
+  | "neg" => pure (.neg (← sub "e"))
+  | "not" => pure (.not (← sub "e"))
+  | "and" => pure (.and (← sub "l") (← sub "r"))
+  | "or" => pure (.or (← sub "l") (← sub "r"))
+  | "cmp" => pure (.cmp (← getStr j "op") (← sub "l") (← sub "r"))
+  | "bin" => do
+    let op ← match l2s (← getStr j "op") with
+      | "add" => pure Expr.BinOp.add | "sub" => pure .sub | "mul" => pure .mul | "div" => pure .div | "pow" => pure .pow
+      | x => throw s!"bad binop {x}"
+    pure (.bin op (← sub "l") (← sub "r"))
+  | x => throw s!"bad E kind {x}"
+
 def handle (op : String) (req : Json) : Except String Json := do
   match op with
   | "echo" => pure (ofJ (← getJ req "v"))
@@ -129,6 +157,9 @@ def handle (op : String) (req : Json) : Except String Json := do
     | some p => pure (resS (Printer.formatValue (← getChar req "quote") (← getStr req "attr") p (← getJ req "value")))
   | "quoter" => quoterOp req
   | "includes" => includesOp req
+  | "exprnorm" => do
+    let e ← decodeE (← (req.getObjVal? "e"))
+    pure (Json.mkObj [("str", .str (l2s (Expr.str e))), ("fixpoint", .bool (Expr.str (Expr.re e) == Expr.str e))])
   | "include_name" => pure (resS (Includes.includeName (← getStr req "line")))
   | "update" => pure (resJ (DictUtils.update (← getBool req "ci") (← getBool req "ow") (← getJ req "d1") (← getFields req "d2")))
   | "find" => pure (resJ (DictUtils.find (← getBool req "ci") (← getStr req "key") (← getJ req "value") (← getList req "lst")))
